@@ -55,6 +55,11 @@ MUTANTS = [
      "        return tuple(dir(obj))", "        return tuple(dir(obj))[:-1]"),
     ("c02-hash-local", "C02", "rpyc/core/netref.py",
      "    def __hash__(self):\n        return syncreq(self, consts.HANDLE_HASH)", "    def __hash__(self):\n        return id(self) & 0xffff"),
+    ("c02-instance-class-cache", "C02", "rpyc/core/protocol.py",
+     ("        if id_pack[2] == 0 and id_pack in self._netref_classes_cache:\n            cls = self._netref_classes_cache[id_pack]",
+      "            if id_pack[2] == 0:\n                # only use cached netrefs for classes\n                # ... instance caching after gc of a proxy will take some mental gymnastics\n                self._netref_classes_cache[id_pack] = cls"),
+     ("        cls_key = id_pack if id_pack[2] == 0 else id_pack[:2]\n        if cls_key in self._netref_classes_cache:\n            cls = self._netref_classes_cache[cls_key]",
+      "            self._netref_classes_cache[cls_key] = cls")),
     # ---- C03
     ("c03-dumpable-isinstance", "C03", "rpyc/core/brine.py",
      "    if type(obj) in simple_types:\n        return True", "    if isinstance(obj, tuple(simple_types)):\n        return True"),
@@ -71,6 +76,12 @@ MUTANTS = [
      "        if type(obj) is tuple:\n            return consts.LABEL_TUPLE", "        if isinstance(obj, tuple):\n            return consts.LABEL_TUPLE"),
     ("c03-float-via-str", "C03", "rpyc/core/brine.py",
      "    stream.append(TAG_FLOAT + F8.pack(obj))", "    stream.append(TAG_FLOAT + F8.pack(float(repr(obj))))"),
+    ("c03-falsy-proxy-not-cached", "C03", "rpyc/core/protocol.py",
+     ("            if id_pack not in self._proxy_cache:\n", "            if id_pack in self._proxy_cache:\n"),
+     ("            if not self._proxy_cache.get(id_pack):\n", "            if self._proxy_cache.get(id_pack):\n")),
+    ("c03-tuple-subclass-as-tuple", "C03", "rpyc/core/protocol.py",
+     "        if type(obj) is tuple:\n            return consts.LABEL_TUPLE, tuple(self._box(item) for item in obj)\n        elif isinstance(obj, netref.BaseNetref) and obj.____conn__ is self:\n            return consts.LABEL_LOCAL_REF, obj.____id_pack__",
+     "        if isinstance(obj, netref.BaseNetref) and obj.____conn__ is self:\n            return consts.LABEL_LOCAL_REF, obj.____id_pack__\n        elif isinstance(obj, tuple):\n            return consts.LABEL_TUPLE, tuple(self._box(item) for item in obj)"),
     # ---- C05
     ("c05-read-short", "C05", "rpyc/core/stream.py",
      "            data.append(buf)\n            count -= len(buf)\n        return BYTES_LITERAL(\"\").join(data)\n\n    def write(self, data):\n        try:\n            while data:\n                count = self.sock.send",
@@ -93,6 +104,9 @@ MUTANTS = [
     ("c05-pipe-eof-not-closing", "C05", "rpyc/core/stream.py",
      "        except EOFError:\n            self.close()\n            raise\n        except EnvironmentError:",
      "        except EOFError:\n            raise\n        except EnvironmentError:"),
+    ("c05-sendall-retry-on-timeout", "C05", "rpyc/core/stream.py",
+     "                count = self.sock.send(data[:self.MAX_IO_CHUNK])\n                data = data[count:]",
+     "                chunk = data[:self.MAX_IO_CHUNK]\n                try:\n                    self.sock.sendall(chunk)\n                except socket.timeout:\n                    continue\n                data = data[len(chunk):]"),
     # ---- C06
     ("c06-default-config-shared", "C06", "rpyc/core/protocol.py",
      "        self._config = DEFAULT_CONFIG.copy()", "        self._config = DEFAULT_CONFIG"),
@@ -165,6 +179,8 @@ MUTANTS = [
     ("c11-write-not-closing", "C11", "rpyc/core/stream.py",
      "        except socket.error:\n            ex = sys.exc_info()[1]\n            self.close()\n            raise EOFError(ex)\n\n\nclass TunneledSocketStream",
      "        except socket.error:\n            ex = sys.exc_info()[1]\n            raise EOFError(ex)\n\n\nclass TunneledSocketStream"),
+    ("c11-poll-readable-only", "C11", "rpyc/core/stream.py",
+     "        return bool(rl)", "        return any('r' in mode for _, mode in rl)"),
     # ---- C12
     ("c12-reentrant-lock", "C12", "rpyc/core/protocol.py",
      "        self._sendlock = Lock()", "        import rpyc.utils.server as _srv\n        self._sendlock = _srv.threading.RLock()"),
@@ -200,6 +216,8 @@ MUTANTS = [
     ("c13-no-recvlock", "C13", "rpyc/core/protocol.py",
      "            if not self._recvlock.acquire(False):\n                return wait_for_lock and self._recv_event.wait(timeout.timeleft())",
      "            self._recvlock.acquire(False)"),
+    ("c13-notify-one", "C13", "rpyc/core/protocol.py",
+     "                self._recv_event.notify_all()", "                self._recv_event.notify()"),
     # ---- C14 (and C13 liveness)
     ("c14-no-notify", "C14", "rpyc/core/protocol.py",
      "            with self._recv_event:\n                self._recv_event.notify_all()\n", "            pass\n"),
@@ -237,6 +255,9 @@ MUTANTS = [
     ("c15-ready-before-obj", "C15", "rpyc/core/async_.py",
      "        if self._is_ready:\n            return True\n        if self._ttl.expired():\n            return False",
      "        if self._is_ready:\n            return True"),
+    ("c15-callback-appended-before-check", "C15", "rpyc/core/async_.py",
+     "        if self._is_ready:\n            func(self)\n        else:\n            self._callbacks.append(func)",
+     "        self._callbacks.append(func)\n        if self._is_ready:\n            func(self)"),
     # ---- C09
     ("c09-traceback-always", "C09", "rpyc/core/vinegar.py",
      "    if include_local_traceback:\n        tbtext", "    if True:\n        tbtext"),
@@ -256,6 +277,9 @@ MUTANTS = [
      "    if include_local_version:\n", "    if True:\n"),
     ("c09-stopiteration-fastpath", "C09", "rpyc/core/vinegar.py",
      "    if typ is StopIteration and (val is None or not (val.args or getattr(val, \"__dict__\", None))):", "    if typ is StopIteration:"),
+    ("c09-qualname-relay", "C09", "rpyc/core/vinegar.py",
+     "    return (typ.__module__, typ.__name__), tuple(args), tuple(attrs), tbtext",
+     "    return (typ.__module__, getattr(typ, '__qualname__', typ.__name__)), tuple(args), tuple(attrs), tbtext"),
     # ---- C16
     ("c16-accept-timeout-fatal", "C16", "rpyc/utils/server.py",
      "            except socket.timeout:\n                pass\n            except socket.error:", "            except socket.error:"),
@@ -315,6 +339,9 @@ MUTANTS = [
     ("c19-imm-int-range", "C19", "rpyc/core/brine.py", "IMM_INTS = dict((i, bytes([i + 0x50])) for i in range(-0x30, 0xa0))", "IMM_INTS = dict((i, bytes([i + 0x50])) for i in range(-0x30, 0x9f))"),
     ("c19-tuple-always-long", "C19", "rpyc/core/brine.py", "    elif lenobj == 4:\n        stream.append(TAG_TUP4)", "    elif lenobj == 4 and False:\n        stream.append(TAG_TUP4)"),
     ("c19-kwargs-as-dictitems-unsorted-ok", "C19", "rpyc/core/protocol.py", "    def _handle_str(self, obj):  # request handler\n        return str(obj)", "    def _handle_str(self, obj):  # request handler\n        return repr(obj)"),
+    ("c19-tuple-subclass-as-tuple", "C19", "rpyc/core/protocol.py",
+     "        if type(obj) is tuple:\n            return consts.LABEL_TUPLE, tuple(self._box(item) for item in obj)\n        elif isinstance(obj, netref.BaseNetref) and obj.____conn__ is self:\n            return consts.LABEL_LOCAL_REF, obj.____id_pack__",
+     "        if isinstance(obj, netref.BaseNetref) and obj.____conn__ is self:\n            return consts.LABEL_LOCAL_REF, obj.____id_pack__\n        elif isinstance(obj, tuple):\n            return consts.LABEL_TUPLE, tuple(self._box(item) for item in obj)"),
     # ---- C20
     ("c20-break-before-last-write", "C20", "rpyc/utils/classic.py",
      "                buf = lf.read(chunk_size)\n                if not buf:\n                    break\n                rf.write(buf)",
@@ -329,6 +356,8 @@ MUTANTS = [
     ("c20-download-read-once", "C20", "rpyc/utils/classic.py",
      "                buf = rf.read(chunk_size)\n                if not buf:\n                    break\n                lf.write(buf)",
      "                buf = rf.read(chunk_size)\n                if not buf:\n                    break\n                lf.write(buf)\n                if chunk_size == 4096 and len(buf) == chunk_size:\n                    rf.read(1)"),
+    ("c20-download-local-isfile", "C20", "rpyc/utils/classic.py",
+     "    elif conn.modules.os.path.isfile(remotepath):", "    elif os.path.isfile(remotepath):"),
     # ---- C10
     ("c10-decref-le", "C10", "rpyc/lib/colls.py",
      "            if slot[1] < count:", "            if slot[1] <= count:"),
@@ -350,11 +379,14 @@ MUTANTS = [
 def apply(root, path, old, new):
     p = os.path.join(root, path)
     s = open(p).read()
-    if "_SHARED_OBJECTS" in new:
+    if "_SHARED_OBJECTS" in str(new):
         s = s.replace("class Connection(object):", "_SHARED_OBJECTS = RefCountingColl()\n\n\nclass Connection(object):", 1)
-    if s.count(old) != 1:
-        raise RuntimeError("mutant pattern matches %d times in %s" % (s.count(old), path))
-    open(p, "w").write(s.replace(old, new))
+    pairs = list(zip(old, new)) if isinstance(old, (list, tuple)) else [(old, new)]
+    for o, n in pairs:
+        if s.count(o) != 1:
+            raise RuntimeError("mutant pattern matches %d times in %s" % (s.count(o), path))
+        s = s.replace(o, n)
+    open(p, "w").write(s)
 
 
 def main(args, seed):
